@@ -344,7 +344,7 @@ func (x *Exec) inlineCall(fi *FuncInfo, c *ast.CallExpr, st *State) *Val {
 
 func (x *Exec) inlineBody(fi *FuncInfo, recv *Val, args []*Val, c *ast.CallExpr, st *State) *Val {
 	callerFrame := x.frame
-	resT := x.info().TypeOf(c)
+	var resT types.Type = fi.Obj.Type().(*types.Signature).Results()
 	fr := x.newFrame(fi)
 	fr.inlined = true
 	fr.recv = callerFrame.recv
@@ -555,10 +555,10 @@ func (x *Exec) contractCall(ct *FuncContract, fn *types.Func, c *ast.CallExpr, s
 		x.noPanic(st, c.Pos(), "nil receiver: "+normSpace(x.e.srcText(c.Fun)), Not(Eq(recv.S, "0")))
 	}
 	args := x.evalArgs(c, fn, st)
-	return x.applyContract(ct, fn, recv, args, c, st)
+	return x.applyContract(ct, fn, recv, args, c, c.Pos(), st)
 }
 
-func (x *Exec) applyContract(ct *FuncContract, fn *types.Func, recv *Val, args []*Val, c *ast.CallExpr, st *State) *Val {
+func (x *Exec) applyContract(ct *FuncContract, fn *types.Func, recv *Val, args []*Val, c *ast.CallExpr, pos token.Pos, st *State) *Val {
 	sig := fn.Type().(*types.Signature)
 	pre := st.Snapshot()
 	// preconditions
@@ -572,7 +572,7 @@ func (x *Exec) applyContract(ct *FuncContract, fn *types.Func, recv *Val, args [
 		if lab == "" {
 			lab = fmt.Sprintf("pre%d", cl.Line)
 		}
-		x.oblige(st, x.top.Key+".call:"+ct.Key+"."+lab, "call-pre", c.Pos(), cl.Src, g)
+		x.oblige(st, x.top.Key+".call:"+ct.Key+"."+lab, "call-pre", pos, cl.Src, g)
 		st.Assume(g)
 	}
 	// frame: havoc what the callee may modify
@@ -582,8 +582,14 @@ func (x *Exec) applyContract(ct *FuncContract, fn *types.Func, recv *Val, args [
 	if ct.Kind == "func" && !ct.Flags["trusted"] {
 		if fi := x.e.byObj[fn.Origin()]; fi != nil {
 			mi := x.inferModifies(fi, recv, args, c, st)
+			allocBefore := x.heapGet(st, allocKey, SInt)
 			for _, k := range sortedKeys(mi.writes) {
-				if k != allocKey {
+				if k == allocKey {
+					continue
+				}
+				if !mi.nonFresh[k] && !mi.cuts {
+					x.heapHavocFresh(st, k, allocBefore)
+				} else {
 					x.heapHavoc(st, k)
 				}
 			}
@@ -603,9 +609,7 @@ func (x *Exec) applyContract(ct *FuncContract, fn *types.Func, recv *Val, args [
 		results = append(results, x.freshVal("res."+fn.Name(), sig.Results().At(i).Type()))
 	}
 	for _, r := range results {
-		if r.K == KInt && isRefType(r.T) {
-			x.allocated(st, r.S)
-		}
+		x.wellFormed(st, r)
 	}
 	envPost := x.calleeEnv(fn, ct, recv, args, results, st, pre)
 	for _, cl := range ct.ClausesOf("ensures") {
@@ -655,7 +659,7 @@ func (x *Exec) inferModifies(fi *FuncInfo, recv *Val, args []*Val, c *ast.CallEx
 	d := x.discover(st, func(s *State) {
 		x.inlineBody(fi, recv, args, c, s)
 	})
-	mi := &modInfo{writes: d.writes, cuts: d.cut}
+	mi := &modInfo{writes: d.writes, nonFresh: d.nonFresh, cuts: d.cut}
 	x.e.modCache[fi.Key] = mi
 	return mi
 }
